@@ -345,6 +345,7 @@ pub fn main(args: &util::Args) {
             rich_generics: i % 11 == 5,
             vec_generics: i % 13 == 6,
             dyn_generics: i % 17 == 4,
+            cov_shapes: i % 6 == 4,
             ..Default::default()
         };
         let (src, _) = crate::progen::gen_program(&mut rng, cfg);
